@@ -62,7 +62,7 @@ claim("C06", "model_checking",
 
 claim("C03", "fault_enumeration",
       "FaultCat.tla (TLC) enumerates the catalogue the property quantifies over from the DISCOVERED structure of the real messages: message slot x field path x alteration (boundary values, bit flips, value copied from the same field of another run, re-randomised value, null / absent / truncated / extended) x deviating party x recipients. Every case is run on the real protocol with one real party whose emitted message is altered at CBOR level; every honest API call is recorded and validated against Handler.tla (TLC), whose invariant WrongNeverAccepted says no honest party is ever done with a result the independent verifier (math/big ECDSA / Schnorr / BIP-340) rejects; key material of honest finishers is checked for mutual consistency with independent arithmetic.",
-      "One deviating participant, alterations of real messages (no strategies needing the cheater's secret state beyond what C04's presign cheater covers). CMP is sampled (seconds per session); FROST / Taproot / toy catalogues are run completely in the thorough tier. Doerner (two-party handler) is not covered by this check.",
+      "One deviating participant: alterations of real messages, plus state-level strategies that read the cheater's own secrets out of its round objects (a dealer with a wrong-degree or shifted polynomial, a share for another evaluation point, a malformed value committed to consistently, an early message of a later round for the two-party handler). CMP is sampled (seconds per session); FROST / Taproot / toy catalogues are run completely in the thorough tier; Doerner traces are validated against TwoParty.tla. No coalitions.",
       "TLC-enumerated fault catalogue (FaultCat.tla) executed on real protocols + trace validation against Handler.tla with an independent result oracle",
       "DESIGN.md §5 C03")
 
